@@ -24,7 +24,7 @@ from ..prog import Program
 
 ID = "C02"
 LEVEL = "exploration"
-RULE = ("exhaustive part: all 40 subclass relations on 4 creation-ordered classes x (all sets of <= 3 one-position "
+RULE = ("exhaustive part: all 40 subclass relations on 4 creation-ordered classes (thorough: also all 357 relations on 5 classes) x (all sets of <= 3 one-position "
         "methods over the 4 classes + object, priority patterns {all 0, first +1, first -1}) + (all sets of <= 2 "
         "two-position methods) x all argument-class tuples; random part: hierarchies of 2-8 classes (MI, ABC "
         "registration, protocol, __subclasshook__), 1-3 positions, <= 6 methods, kw-only typed parameters, "
@@ -39,21 +39,20 @@ ASSUMPTIONS = [
 REPORT_COUNTERS = ["programs", "programs_exhaustive", "calls", "calls_2plus_applicable", "calls_ambiguous_expected",
                    "calls_none_expected", "resolve_checked", "error_calls_no_body_checked", "kw_calls", "repeat_sig_programs"]
 
-_EXH = None
+_EXH = {}
 
 
-def _exhaustive():
-    """Deterministic list of exhaustive-tier program specs (built lazily, identical in every worker)."""
-    global _EXH
-    if _EXH is not None:
-        return _EXH
+def _exhaustive(n=4):
+    """Deterministic list of exhaustive-tier program specs over n classes (built lazily, identical in every worker)."""
+    if n in _EXH:
+        return _EXH[n]
     rels, hiers = set(), []
-    for h in gen.all_hierarchies(4):
+    for h in gen.all_hierarchies(n):
         r = gen.subclass_relation(h)
         if r not in rels:
             rels.add(r)
             hiers.append(h)
-    names = ["K0", "K1", "K2", "K3", "object"]
+    names = [f"K{i}" for i in range(n)] + ["object"]
     progs = []
     for h in hiers:
         # one-position sets of <= 3 methods x priority patterns
@@ -74,30 +73,36 @@ def _exhaustive():
             progs.append({"hier": h, "npos": 2, "exh": True, "methods": [
                 {"mid": 0, "pos": [{"n": "a0", "t": a[0]}, {"n": "a1", "t": a[1]}], "prio": 0, "kind": "leaf"},
                 {"mid": 1, "pos": [{"n": "a0", "t": b[0]}, {"n": "a1", "t": b[1]}], "prio": 0, "kind": "leaf"}]})
-    _EXH = progs
+    _EXH[n] = progs
     return progs
 
 
 def plan(tier):
-    nexh = len(_exhaustive())
+    # quick: the complete 4-class tier; thorough: the complete 5-class tier (357 subclass relations) as well
+    nexh = len(_exhaustive(4)) + (len(_exhaustive(5)) if tier == "thorough" else 0)
     nrand = 3000 if tier == "quick" else 60000
-    return {"cases": nexh + nrand, "params": {"nexh": nexh}, "exhaustive": False,
+    return {"cases": nexh + nrand, "params": {"nexh": nexh, "n4": len(_exhaustive(4))}, "exhaustive": False,
             "timeout_s": 1200 if tier == "quick" else 7200,
             "min": {"calls": 200_000, "calls_2plus_applicable": 15_000, "calls_ambiguous_expected": 5_000,
                     "resolve_checked": 100_000, "kw_calls": 2_000, "programs_exhaustive": nexh}}
 
 
 def extra_coverage(counters):
-    return {"exhaustive_small_tier_complete": counters.get("programs_exhaustive", 0) == len(_exhaustive()),
-            "exhaustive_small_tier_programs": len(_exhaustive())}
+    n4 = len(_exhaustive(4))
+    done = counters.get("programs_exhaustive", 0)
+    return {"exhaustive_4_class_tier_complete": done >= n4, "exhaustive_4_class_tier_programs": n4,
+            "exhaustive_5_class_tier_complete": bool(_EXH.get(5)) and done >= n4 + len(_EXH[5]),
+            "exhaustive_5_class_tier_programs": len(_EXH[5]) if _EXH.get(5) else 0}
 
 
 KW = ["k1", "k2"]
 
 
 def gen_case(rng, params, idx):
+    if idx < params["n4"]:
+        return _exhaustive(4)[idx]
     if idx < params["nexh"]:
-        return _exhaustive()[idx]
+        return _exhaustive(5)[idx - params["n4"]]
     hier = gen.gen_hierarchy(rng, rng.randint(2, 8))
     pool = [s["name"] for s in hier] + ["object", "HasFly", "Shape", "Hook"]
     npos = rng.choice([1, 1, 2, 2, 3])
